@@ -16,7 +16,7 @@ PLAN = {}
 
 PLAN["C01"] = dict(
     level="proof",
-    functions=[(CONV, "merge_nodes"), (CONV, "to_stable"), (CONV, "to_unstable#bare"), (CONV, "to_unstable#intervals"), (UTILS, "search_intervals"),
+    functions=[(CONV, "merge_nodes"), (CONV, "to_stable"), (CONV, "to_unstable#bare"), (CONV, "to_unstable#intervals"), (UTILS, "search_intervals"), (UTILS, "reverse_cigar#tokens"),
                (CONV, "to_unstable#filter"), (INDEX, "convert_coord#filter"), (GFA, "GFA.get_path")],
     explanation="Base-identity formulation (DESIGN 3.2): a record designates the map path-offset -> (contig, position, orientation). "
                 "merge_nodes and the whole of to_stable (token loop, merge loop with ghost prefix arrays S/U/run_of, collapse branch, "
@@ -29,7 +29,9 @@ PLAN["C01"] = dict(
                 "the segments of that contig overlapping the token's interval, ascending for '>' and descending for '<' (ghost lo/hi range, window from "
                 "search_intervals, filter, emission loops); interval form: offsets copied; bare form: total = length of the covering segments and, for a "
                 "symbolic read offset r, the base designated before and after is the same contig position on both strands; output strand '+', CIGAR "
-                "reversed iff the input strand is '-'; columns and tags as in to_stable. get_path delivers the per-contig lists sorted by SO.",
+                "reversed iff the input strand is '-'; columns and tags as in to_stable. get_path delivers the per-contig lists sorted by SO. "
+                "reverse_cigar, at the level of the CIGAR's digit / operation runs: the (length, operation) pairs come out in reverse order, each length "
+                "still in front of its own operation, none lost (the callers above use reverse_cigar as an uninterpreted function of the string).",
     trusted_base=["meta-argument (not mechanised): equal identity maps => equal spellings (DESIGN 3.2)",
                   "ghost prefix arrays built by X[k+1] = X[k] + d are the prefix sums",
                   "to_unstable: input shapes other than the two above (e.g. '-' strand with an interval path) are outside the contract; that an interval token's covering "
@@ -42,6 +44,7 @@ PLAN["C01"] = dict(
         dict(name="bisection mid+1 -> mid", file=UTILS, old="mid + 1, end)", new="mid, end)", expect="search_intervals::decreases", functions=[(UTILS, "search_intervals")]),
         dict(name="equivalent mutant mid-1 -> mid stays green", file=UTILS, old="start, mid - 1)", new="start, mid)", expect="green", functions=[(UTILS, "search_intervals")]),
         dict(name="filter case 2 <= -> <", file=CONV, old="elif s < int(query_end) <= e:", new="elif s < int(query_end) < e:", expect="filter-iff-overlap", functions=[(CONV, "to_unstable#filter")]),
+        dict(name="reverse_cigar swaps length and operation", file=UTILS, old="        new_cigar += str(all_cigars[i - 2]) + str(all_cigars[i - 1])", new="        new_cigar += str(all_cigars[i - 1]) + str(all_cigars[i - 2])", expect="reverse_cigar", functions=[(UTILS, "reverse_cigar#tokens")]),
         dict(name="to_unstable bare '-' offset", file=CONV, old="            new_end = new_total - new_start\n", new="            new_end = new_total - new_start - 1\n", expect="to_unstable#bare", functions=[(CONV, "to_unstable#bare")]),
         dict(name="to_unstable reverses the wrong orientation", file=CONV, old='        if orient == "<":\n            for i in reversed(nodes_tmp):', new='        if orient == ">":\n            for i in reversed(nodes_tmp):', expect="to_unstable", functions=[(CONV, "to_unstable#bare")]),
         dict(name="collapse offset off by one", file=CONV, old="gaf_line.path_length - gaf_line.path_end\n", new="gaf_line.path_length - gaf_line.path_end - 1\n", expect="to_stable", functions=[(CONV, "to_stable")], quick=False),
@@ -87,18 +90,22 @@ PLAN["C05"] = dict(
 
 PLAN["C14"] = dict(
     level="proof",
-    functions=[(GFA, "GFA.path_exists"), (GFA, "GFA.extract_path")],
+    functions=[(GFA, "GFA.path_exists"), (GFA, "GFA.extract_path"), ("gaftools/cli/find_path.py", "run#read-paths"), ("gaftools/cli/find_path.py", "run#write-records")],
     lemmas=[gfa_c.lemma_reversal],
     explanation="path_exists (4-row orientation table, early return, inner scan over the adjacency set) returns True iff every consecutive "
                 "pair of steps is a link of the graph in the matching orientations, stated against the GFA link semantics (leave a through "
                 "its end for '>' / start for '<', enter b at its start for '>' / end for '<'); lemma: under the symmetric-adjacency "
                 "invariant (C15) a step is a link iff the reversed step is, hence the reversed walk is accepted iff the walk is. "
                 "extract_path returns '' unless every consecutive pair of steps is a link, and otherwise the per-step pieces in order (the node's sequence "
-                "for '>', its reverse complement for '<'). find_path's record loop and the character-level reverse complement are covered by the bounded stand-in.",
+                "for '>', its reverse complement for '<'). find_path.run: the file branch builds one (path, spelled sequence) entry per input line, in order, each "
+                "spelled from its own line; the writer emits one record per entry in order (FASTA: header '>seq_<path>' then the sequence). The "
+                "character-level reverse complement is covered by the bounded stand-in.",
     trusted_base=["re.findall('[><][^><]+', path) tokenises the path (assumed)", "str.translate / [::-1] implement reverse complement (assumed)",
                   "''.join(pieces) is injective on piece lists (untok(strjoin(l)) == l), rev_comp as an uninterpreted function: assumed",
-                  "rev_comp at character level, find_path.run: BOUNDED stand-in only"],
+                  "find_path.run is verified as two statement-range fragments (reader = list of lines, writer = list of printed records); open()/sys.stdout plumbing between them: BOUNDED stand-in only",
+                  "rev_comp at character level: BOUNDED stand-in only"],
     mutations=[
+        dict(name="find_path spells the first line for every line", file="gaftools/cli/find_path.py", old="            path_seqs.append(graph.extract_path(nodes[-1]))", new="            path_seqs.append(graph.extract_path(nodes[0]))", expect="read-paths", functions=[("gaftools/cli/find_path.py", "run#read-paths")]),
         dict(name="swap two table rows", file=GFA, old='            (">", "<"): ("end", 1),\n            ("<", ">"): ("start", 0),', new='            (">", "<"): ("start", 0),\n            ("<", ">"): ("end", 1),', expect="path_exists"),
         dict(name="row << wrong side", file=GFA, old='("<", "<"): ("start", 1)', new='("<", "<"): ("start", 0)', expect="path_exists"),
         dict(name="forward steps reverse-complemented", file=GFA, old='            if n.startswith(">"):\n                seq.append(self.nodes[n[1:]].seq)', new='            if n.startswith("<"):\n                seq.append(self.nodes[n[1:]].seq)', expect="extract_path", functions=[(GFA, "GFA.extract_path")]),
@@ -109,7 +116,7 @@ _NODE_METHODS = [(GFA, "Node." + m) for m in ("add_from_start", "add_from_end", 
 PLAN["C15"] = dict(
     level="other",
     functions=_NODE_METHODS + [(GFA, "GFA.add_edge"), (GFA, "GFA.remove_edge"), (GFA, "GFA.find_component"), (GFA, "GFA.all_components"), (GFA, "GFA.dfs"),
-                              (GFA, "GFA.remove_node"), (GFA, "GFA.add_node")],
+                              (GFA, "GFA.remove_node"), (GFA, "GFA.add_node"), (GFA, "Node.neighbors#body")],
     lemmas=[gfa_c.node_init_lemma],
     explanation="PROVED (deductive, unbounded): (0) remove_node (both loops, ghost enumeration of the two sides) removes exactly that node and exactly "
                 "the links to it at every other node, on both sides, self-links included, and keeps the adjacency invariant; add_node adds a node "
@@ -124,7 +131,7 @@ PLAN["C15"] = dict(
                 "stays inside the component (all three exits of the function). "
                 "BOUNDED only: biccs (iterative Hopcroft-Tarjan): exhaustive comparison with the definitions on all small graphs "
                 "(see coverage.bounded); the same enumeration also re-checks everything above on the real objects.",
-    trusted_base=["Node.neighbors caller view (every id on either side is listed, only those; sorted() itself not modelled)",
+    trusted_base=["Node.neighbors caller view = Skolem form (position function nbrpos) of the existential postcondition verified on its body (Node.neighbors#body)",
                   "GFA.set_visited caller view (body mutates nodes through dict.values(): aliasing not modelled)",
                   "is_correct_tag caller view (an accepted tag splits into three parts); Node(...) constructor model (compared with Node.__init__ on every run)",
                   "remove_node: the contig_to_nodes clean-up is not modelled (alias_ok), nothing is claimed about contig_to_nodes",
@@ -143,13 +150,16 @@ PLAN["C15"] = dict(
 
 PLAN["C07"] = dict(
     level="other",
-    functions=[(GFA, "GFA.write_gfa#L-line-from-start"), (GFA, "GFA.write_gfa#L-line-from-end"), (GFA, "GFA.add_edge")],
-    explanation="PROVED: the L-line emitted by write_gfa for an adjacency entry carries orientation signs that decode through E_DIR (the table "
+    functions=[(GFA, "GFA.write_gfa#L-line-from-start"), (GFA, "GFA.write_gfa#L-line-from-end"), (GFA, "GFA.write_gfa#both-loops"), (GFA, "GFA.add_edge")],
+    explanation="PROVED: both output loops of write_gfa as one fragment (any number of nodes and links): every S line precedes every L line, there is exactly "
+                "one S line per listed node that exists in the graph, in the listed order (ghost prefix count), carrying that node's id. The L-line emitted by write_gfa for an adjacency entry carries orientation signs that decode through E_DIR (the table "
                 "add_edge uses) to exactly the stored sides, with id, overlap and tags in place (both the start-side and the end-side branch); "
                 "add_edge stores exactly the declared link at both ends. BOUNDED: exactly-once emission per declared link (edge_tags keying), "
                 "S-before-L, (BO,NO) order, tag round trip, CSV rows, load->write->independent-reader equality.",
-    trusted_base=["'\\t'.join / split round trip (assumed)", "exactly-once emission, S/L order, CSV, tags: BOUNDED stand-in only"],
+    trusted_base=["'\\t'.join / split round trip (assumed)", "Node.to_gfa_line caller view (an S line with the node id second); nodes[k].id == k (representation invariant, precondition)",
+                  "exactly-once emission of links, (BO,NO) order of the S lines (sort_bo_no), CSV, tags: BOUNDED stand-in only"],
     mutations=[
+        dict(name="write_gfa writes an S line after the links of a node", file=GFA, old='            for e in edges:\n                f.write(e + "\\n")\n\n        f.close()', new='            for e in edges:\n                f.write(e + "\\n")\n            f.write(self.nodes[n1].to_gfa_line() + "\\n")\n\n        f.close()', expect="write_gfa#both-loops", functions=[(GFA, "GFA.write_gfa#both-loops")]),
         dict(name="swap sign in one write_gfa branch", file=GFA, old='"\\t".join(["L", str(n1), "-", str(n[0]), "+", overlap] + tags)', new='"\\t".join(["L", str(n1), "-", str(n[0]), "-", overlap] + tags)', expect="write_gfa", functions=[(GFA, "GFA.write_gfa#L-line-from-start")]),
     ],
 )
